@@ -19,18 +19,81 @@ def lineOk (IB : List Nat) (BB : List Bytes) (a b : Line) : Prop :=
 
 def shiftFrame (k : Nat) (f : Frame) : Frame := { f with retPc := f.retPc + k }
 
+/-- the assembled straight-line state that corresponds to a plain one: same stack and world, the declared blocks -/
+def TM (IB : List Nat) (BB : List Bytes) (m : MS) : MS := { m with intc := IB, bytec := BB }
+
 /-- the assembled machine state that corresponds to a plain state -/
 def T (k : Nat) (IB : List Nat) (BB : List Bytes) (s : St) : St :=
-  { s with pc := s.pc + k, calls := s.calls.map (shiftFrame k), intc := IB, bytec := BB }
+  { pc := s.pc + k, calls := s.calls.map (shiftFrame k), ms := TM IB BB s.ms }
 
 def mapR (f : St → St) : StepR → StepR
   | .next s => .next (f s)
+  | .halt o => .halt o
+
+def mapSR (f : MS → MS) : SR → SR
+  | .ok m => .ok (f m)
   | .halt o => .halt o
 
 structure Rel (k : Nat) (IB : List Nat) (BB : List Bytes) (p q : Program) : Prop where
   size : q.size = p.size + k
   line : ∀ i a, p[i]? = some a → ∃ b, q[i + k]? = some b ∧ lineOk IB BB a b
   label : ∀ l, findLabel q l = (findLabel p l).map (· + k)
+
+theorem pushV_TM (IB : List Nat) (BB : List Bytes) (m : MS) (v : Val) :
+    pushV (TM IB BB m) v = mapSR (TM IB BB) (pushV m v) := by
+  unfold pushV
+  by_cases h : m.stack.length < maxStack <;> simp [TM, mapSR, h]
+
+/-- straight-line instructions: related lines act the same on related states -/
+theorem execSimple_sim (cx : Ctx) (IB : List Nat) (BB : List Bytes) (a b : Line) (hl : lineOk IB BB a b) (m : MS) :
+    execSimple cx b.instr (TM IB BB m) = (execSimple cx a.instr m).map (mapSR (TM IB BB)) := by
+  unfold lineOk at hl
+  cases hi : a.instr <;> simp only [hi] at hl
+  case pushInt n =>
+    rcases hl with hl | ⟨k', hl, hk⟩
+    · simp [hl, execSimple, pushV_TM]
+    · have : (TM IB BB m).intc = IB := rfl
+      simp [hl, execSimple, this, hk, pushV_TM]
+  case pushBytes x =>
+    rcases hl with hl | ⟨k', hl, hk⟩
+    · simp [hl, execSimple, pushV_TM]
+    · have : (TM IB BB m).bytec = BB := rfl
+      simp [hl, execSimple, this, hk, pushV_TM]
+  case label l => simp [hl, execSimple, mapSR]
+  case pragma n v => simp [hl, execSimple, mapSR]
+  case tmpl o n => simp [hl, execSimple, mapSR]
+  case err => simp [hl, execSimple, mapSR]
+  case ret =>
+    simp only [hl, execSimple, Option.map_some]
+    have : (TM IB BB m).stack = m.stack := rfl
+    have hw : (TM IB BB m).world = m.world := rfl
+    rw [this, hw]
+    rcases m.stack with _ | ⟨v, r⟩
+    · simp [mapSR]
+    · cases v <;> simp [mapSR]
+  case load n =>
+    simp only [hl, execSimple, Option.map_some]
+    have hw : (TM IB BB m).world = m.world := rfl
+    rw [hw]
+    by_cases hn : n < 256 <;> simp [hn, pushV_TM, mapSR]
+  case store n =>
+    simp only [hl, execSimple, Option.map_some]
+    have : (TM IB BB m).stack = m.stack := rfl
+    rw [this]
+    rcases hs : m.stack with _ | ⟨v, r⟩
+    · simp [mapSR]
+    · by_cases hn : n < 256 <;> simp [hn, mapSR, TM]
+  case prim o imms =>
+    simp only [hl, execSimple, Option.map_some]
+    have e1 : (TM IB BB m).world = m.world := rfl
+    have e2 : (TM IB BB m).stack = m.stack := rfl
+    rw [e1, e2]
+    cases execPrim cx o imms m.world m.stack with
+    | error e => simp [mapSR]
+    | ok r =>
+      obtain ⟨st', w'⟩ := r
+      by_cases hlen : st'.length ≤ maxStack <;> simp [hlen, mapSR, TM]
+  all_goals simp [hl, execSimple]
 
 theorem step_sim (cx : Ctx) (k : Nat) (IB : List Nat) (BB : List Bytes) (p q : Program) (h : Rel k IB BB p q) (s : St) :
     step cx q (T k IB BB s) = mapR (T k IB BB) (step cx p s) := by
@@ -43,119 +106,96 @@ theorem step_sim (cx : Ctx) (k : Nat) (IB : List Nat) (BB : List Bytes) (p q : P
     simp only [hq]
     have := h.size
     by_cases e : s.pc = p.size
-    · simp [T, e, this, mapR, finish]
+    · simp [T, e, this, mapR, finish, TM]
     · have : ¬ (s.pc + k = q.size) := by omega
       simp [T, e, this, mapR]
   | some a =>
     obtain ⟨b, hb, hl⟩ := h.line _ _ hp
     have hq : q[(T k IB BB s).pc]? = some b := by simpa [T] using hb
     simp only [hq]
-    cases hi : a.instr <;> simp only [lineOk, hi] at hl
-    case label l => simp [hl, T, mapR, Nat.add_right_comm]
-    case pragma n v => simp [hl, T, mapR, Nat.add_right_comm]
-    case pushInt n =>
-      by_cases hlen : s.stack.length < maxStack <;> rcases hl with hl | ⟨k', hl, hk⟩
-      · simp [hl, T, mapR, hlen, Nat.add_right_comm]
-      · simp [hl, T, mapR, hlen, hk, Nat.add_right_comm]
-      · simp [hl, T, mapR, hlen, Nat.add_right_comm]
-      · simp [hl, T, mapR, hlen, hk, Nat.add_right_comm]
-    case pushBytes x =>
-      by_cases hlen : s.stack.length < maxStack <;> rcases hl with hl | ⟨k', hl, hk⟩
-      · simp [hl, T, mapR, hlen, Nat.add_right_comm]
-      · simp [hl, T, mapR, hlen, hk, Nat.add_right_comm]
-      · simp [hl, T, mapR, hlen, Nat.add_right_comm]
-      · simp [hl, T, mapR, hlen, hk, Nat.add_right_comm]
-    case b l =>
-      simp only [hl, jump, h.label l]
-      cases findLabel p l <;> simp [T, mapR]
-    case bz l =>
-      simp only [hl, jump, h.label l]
-      rcases hs : s.stack with _ | ⟨v, r⟩
-      · simp [T, hs, mapR]
-      · cases v with
-        | b x => simp [T, hs, mapR]
-        | u n =>
-          cases n with
-          | zero => cases findLabel p l <;> simp [T, hs, mapR]
-          | succ m => simp [T, hs, mapR, Nat.add_right_comm]
-    case bnz l =>
-      simp only [hl, jump, h.label l]
-      rcases hs : s.stack with _ | ⟨v, r⟩
-      · simp [T, hs, mapR]
-      · cases v with
-        | b x => simp [T, hs, mapR]
-        | u n =>
-          cases n with
-          | zero => simp [T, hs, mapR, Nat.add_right_comm]
-          | succ m => cases findLabel p l <;> simp [T, hs, mapR]
-    case tmpl o n => simp [hl, mapR]
-    case err => simp [hl, mapR]
-    case callsub l =>
-      simp only [hl, jump, h.label l]
-      cases findLabel p l <;> simp [T, mapR, shiftFrame, Nat.add_right_comm]
-    case ret =>
-      simp only [hl]
-      rcases hs : s.stack with _ | ⟨v, r⟩
-      · simp [T, hs, mapR]
-      · cases v <;> simp [T, hs, mapR]
-    case load n =>
-      simp only [hl]
-      by_cases hn : n < 256 <;> by_cases hlen : s.stack.length < maxStack <;>
-        simp [T, mapR, hn, hlen, Nat.add_right_comm]
-    case store n =>
-      simp only [hl]
-      rcases hs : s.stack with _ | ⟨v, r⟩
-      · simp [T, hs, mapR]
-      · by_cases hn : n < 256 <;> simp [T, hs, mapR, hn, Nat.add_right_comm]
-    case prim o imms =>
-      simp only [hl]
-      have e1 : (T k IB BB s).world = s.world := rfl
-      have e2 : (T k IB BB s).stack = s.stack := rfl
-      rw [e1, e2]
-      cases execPrim cx o imms s.world s.stack with
-      | error e => simp [mapR]
-      | ok r =>
-        obtain ⟨st', w'⟩ := r
-        by_cases hlen : st'.length ≤ maxStack <;> simp [T, mapR, hlen, Nat.add_right_comm]
-    case retsub =>
-      simp only [hl]
-      rcases hc : s.calls with _ | ⟨f, cs⟩
-      · simp [T, hc, mapR]
-      · rcases hpr : f.proto with _ | ⟨a', r'⟩
-        · simp [T, hc, hpr, mapR, shiftFrame]
-        · by_cases h1 : s.stack.length < f.height + r' <;> by_cases h2 : f.height < a' <;>
-            simp [T, hc, hpr, mapR, shiftFrame, h1, h2]
-    case proto a' r' =>
-      simp only [hl]
-      rcases hc : s.calls with _ | ⟨f, cs⟩
-      · simp [T, hc, mapR]
-      · by_cases h1 : f.proto.isSome = true <;> by_cases h2 : s.stack.length < a' <;>
-          simp [T, hc, mapR, shiftFrame, h1, h2, Nat.add_right_comm]
-    case frameDig i =>
-      simp only [hl]
-      rcases hc : s.calls with _ | ⟨f, cs⟩
-      · simp [T, hc, mapR]
-      · simp only [T, hc, List.map_cons, shiftFrame]
-        by_cases hlen : s.stack.length < maxStack <;>
-        by_cases h2 : (f.height : Int) + i < 0 <;>
-        by_cases h3 : ((f.height : Int) + i).toNat ≥ s.stack.length <;>
-        rcases hg : s.stack[fromBottom s.stack ((f.height : Int) + i).toNat]? with _ | v <;>
-        rcases hpr : f.proto with _ | ⟨a', r'⟩ <;>
-        simp [mapR, hlen, h2, h3, hg, hpr, Nat.add_right_comm] <;>
-        (try split) <;> (try simp [mapR, T, shiftFrame, hpr, Nat.add_right_comm])
-    case frameBury i =>
-      simp only [hl]
-      rcases hc : s.calls with _ | ⟨f, cs⟩
-      · simp [T, hc, mapR]
-      · rcases hs : s.stack with _ | ⟨v, r⟩
-        · simp [T, hc, hs, mapR]
-        · simp only [T, hc, hs, List.map_cons, shiftFrame]
+    have hms : (T k IB BB s).ms = TM IB BB s.ms := rfl
+    rw [hms, execSimple_sim cx IB BB a b hl s.ms]
+    cases hex : execSimple cx a.instr s.ms with
+    | some r =>
+      cases r with
+      | ok m => simp [mapSR, mapR, T, Nat.add_right_comm]
+      | halt o => simp [mapSR, mapR]
+    | none =>
+      simp only [Option.map_none]
+      unfold lineOk at hl
+      cases hi : a.instr <;> simp only [hi] at hl <;> simp only [hi, execSimple] at hex
+      all_goals try (exact absurd hex (Option.some_ne_none _))
+      case b l =>
+        simp only [hl, jump, h.label l]
+        cases findLabel p l <;> simp [T, mapR]
+      case bz l =>
+        simp only [hl, jump, h.label l]
+        have hst : (TM IB BB s.ms).stack = s.ms.stack := rfl
+        rcases hs : s.ms.stack with _ | ⟨v, r⟩
+        · simp [T, hst, hs, mapR]
+        · cases v with
+          | b x => simp [T, hst, hs, mapR]
+          | u n =>
+            cases n with
+            | zero => cases findLabel p l <;> simp [T, hst, hs, mapR, TM]
+            | succ m => simp [T, hst, hs, mapR, TM, Nat.add_right_comm]
+      case bnz l =>
+        simp only [hl, jump, h.label l]
+        have hst : (TM IB BB s.ms).stack = s.ms.stack := rfl
+        rcases hs : s.ms.stack with _ | ⟨v, r⟩
+        · simp [T, hst, hs, mapR]
+        · cases v with
+          | b x => simp [T, hst, hs, mapR]
+          | u n =>
+            cases n with
+            | zero => simp [T, hst, hs, mapR, TM, Nat.add_right_comm]
+            | succ m => cases findLabel p l <;> simp [T, hst, hs, mapR, TM]
+      case callsub l =>
+        simp only [hl, jump, h.label l]
+        cases findLabel p l <;> simp [T, TM, mapR, shiftFrame, Nat.add_right_comm]
+      case retsub =>
+        simp only [hl]
+        rcases hc : s.calls with _ | ⟨f, cs⟩
+        · simp [T, hc, mapR]
+        · rcases hpr : f.proto with _ | ⟨a', r'⟩
+          · simp [T, hc, hpr, mapR, shiftFrame]
+          · by_cases h1 : s.ms.stack.length < f.height + r' <;> by_cases h2 : f.height < a' <;>
+              simp [T, TM, hc, hpr, mapR, shiftFrame, h1, h2]
+      case proto a' r' =>
+        simp only [hl]
+        rcases hc : s.calls with _ | ⟨f, cs⟩
+        · simp [T, hc, mapR]
+        · by_cases h1 : f.proto.isSome = true <;> by_cases h2 : s.ms.stack.length < a' <;>
+            simp [T, TM, hc, mapR, shiftFrame, h1, h2, Nat.add_right_comm]
+      case frameDig i =>
+        simp only [hl]
+        rcases hc : s.calls with _ | ⟨f, cs⟩
+        · simp [T, hc, mapR]
+        · have hba : belowArgs (shiftFrame k f) i = belowArgs f i := rfl
+          have hst : (TM IB BB s.ms).stack = s.ms.stack := rfl
+          simp only [T, hc, List.map_cons, hba, hst, pushV_TM]
+          have hh : (shiftFrame k f).height = f.height := rfl
+          rw [hh]
+          by_cases h1 : belowArgs f i = true <;>
           by_cases h2 : (f.height : Int) + i < 0 <;>
-          by_cases h3 : ((f.height : Int) + i).toNat ≥ r.length <;>
-          rcases hpr : f.proto with _ | ⟨a', r'⟩ <;>
-          simp [mapR, h2, h3, hpr, Nat.add_right_comm] <;>
-          (try split) <;> (try simp [mapR, T, shiftFrame, hpr, Nat.add_right_comm])
-
+          by_cases h3 : ((f.height : Int) + i).toNat ≥ s.ms.stack.length <;>
+          rcases hg : s.ms.stack[fromBottom s.ms.stack ((f.height : Int) + i).toNat]? with _ | v <;>
+          simp [mapR, h1, h2, h3, hg] <;>
+          (cases pushV s.ms v <;> simp [mapSR, mapR, T, hc, Nat.add_right_comm])
+      case frameBury i =>
+        simp only [hl]
+        rcases hc : s.calls with _ | ⟨f, cs⟩
+        · simp [T, hc, mapR]
+        · have hba : belowArgs (shiftFrame k f) i = belowArgs f i := rfl
+          have hst : (TM IB BB s.ms).stack = s.ms.stack := rfl
+          have hh : (shiftFrame k f).height = f.height := rfl
+          simp only [T, hc, List.map_cons, hba, hst, hh]
+          rcases hs : s.ms.stack with _ | ⟨v, r⟩
+          · simp [mapR]
+          · by_cases h1 : belowArgs f i = true <;>
+            by_cases h2 : (f.height : Int) + i < 0 <;>
+            by_cases h3 : ((f.height : Int) + i).toNat ≥ r.length <;>
+            simp [mapR, h1, h2, h3, T, TM, hc, Nat.add_right_comm]
 
 theorem runFrom_sim (cx : Ctx) (k : Nat) (IB : List Nat) (BB : List Bytes) (p q : Program) (h : Rel k IB BB p q) :
     ∀ (fuel : Nat) (s : St), runFrom cx q fuel (T k IB BB s) = runFrom cx p fuel s
@@ -238,8 +278,9 @@ theorem isLab_of_isDecl {l : String} {ln : Line} (h : isDecl ln = true) : isLab 
 theorem exec_decls (cx : Ctx) (q : Program) : ∀ (ds : List Line) (s : St) (fuel : Nat),
     (∀ l ∈ ds, isDecl l = true) → (∀ (j : Nat) (l : Line), ds[j]? = some l → q[s.pc + j]? = some l) →
     runFrom cx q (fuel + ds.length) s =
-      runFrom cx q fuel { s with pc := s.pc + ds.length, intc := (declBlocks ds (s.intc, s.bytec)).1,
-                                 bytec := (declBlocks ds (s.intc, s.bytec)).2 }
+      runFrom cx q fuel { s with pc := s.pc + ds.length,
+                                 ms := { s.ms with intc := (declBlocks ds (s.ms.intc, s.ms.bytec)).1,
+                                                   bytec := (declBlocks ds (s.ms.intc, s.ms.bytec)).2 } }
   | [], s, fuel, _, _ => by simp [declBlocks]
   | d :: ds, s, fuel, hd, hi => by
     have h0 : q[s.pc]? = some d := by simpa using hi 0 d (by simp)
@@ -254,15 +295,15 @@ theorem exec_decls (cx : Ctx) (q : Program) : ∀ (ds : List Line) (s : St) (fue
     unfold isDecl at hdd
     cases hinstr : d.instr <;> simp [hinstr] at hdd
     case pragma nm v =>
-      simp only [runFrom, step, h0, hinstr]
+      simp only [runFrom, step, h0, hinstr, execSimple]
       rw [exec_decls cx q ds _ fuel hrest (hstep _ rfl)]
       simp [declBlocks, hinstr, Nat.add_assoc, Nat.add_comm 1]
     case intcblock vs =>
-      simp only [runFrom, step, h0, hinstr]
+      simp only [runFrom, step, h0, hinstr, execSimple]
       rw [exec_decls cx q ds _ fuel hrest (hstep _ rfl)]
       simp [declBlocks, hinstr, Nat.add_assoc, Nat.add_comm 1]
     case bytecblock vs =>
-      simp only [runFrom, step, h0, hinstr]
+      simp only [runFrom, step, h0, hinstr, execSimple]
       rw [exec_decls cx q ds _ fuel hrest (hstep _ rfl)]
       simp [declBlocks, hinstr, Nat.add_assoc, Nat.add_comm 1]
 
@@ -303,17 +344,17 @@ theorem run_of_parts {IB : List Nat} {BB : List Bytes} (p0 q : Program) (ds body
     run cx q (fuel + ds.length) w = run cx p0 fuel w := by
   have hrel := rel_of_parts (IB := IB) (BB := BB) p0 q ds body hq hdecl hlen hline
   unfold run
-  have hidx : ∀ (j : Nat) (l : Line), ds[j]? = some l → q[({ world := w } : St).pc + j]? = some l := by
+  have hidx : ∀ (j : Nat) (l : Line), ds[j]? = some l → q[({ ms := { world := w } } : St).pc + j]? = some l := by
     intro j l hj
     have : q.toList[j]? = some l := by
       rw [hq, List.getElem?_append_left (by
         have := (List.getElem?_eq_some_iff.mp hj).1; exact this)]
       exact hj
     simpa using this
-  rw [exec_decls cx q ds { world := w } fuel hdecl hidx]
-  rw [← runFrom_sim cx ds.length IB BB p0 q hrel fuel { world := w }]
+  rw [exec_decls cx q ds { ms := { world := w } } fuel hdecl hidx]
+  rw [← runFrom_sim cx ds.length IB BB p0 q hrel fuel { ms := { world := w } }]
   congr 1
-  simp [T, hblocks]
+  simp [T, TM, hblocks]
 
 theorem mem_takeWhile_imp {α : Type} {P : α → Bool} : ∀ {l : List α} {x : α}, x ∈ l.takeWhile P → P x = true
   | [], _, h => by simp at h
